@@ -48,7 +48,7 @@ class _Renamer(ast.NodeTransformer):
         return n
 
 
-def _rename_locals(tree):
+def _rename_locals(tree, every=False):
     """Rename, in every function, one plain local (assigned by a simple statement, never a parameter, global,
     attribute name or keyword argument name, not used in nested defs) to <name>_rn.  Returns number of renames."""
     count = 0
@@ -63,7 +63,7 @@ def _rename_locals(tree):
         kwnames = {k.arg for c in ast.walk(fn) if isinstance(c, ast.Call) for k in c.keywords if k.arg}
         declared = {n2 for g in ast.walk(fn) if isinstance(g, (ast.Global, ast.Nonlocal)) for n2 in g.names}
         stores = [n.id for n in ast.walk(fn) if isinstance(n, ast.Name) and isinstance(n.ctx, ast.Store)]
-        for cand in stores:
+        for cand in dict.fromkeys(stores):
             if cand in params or cand in nested_names or cand in kwnames or cand in declared or cand.startswith("_") or hasattr(builtins, cand) or len(cand) < 3:
                 continue
             if any(isinstance(s, ast.JoinedStr) for s in ast.walk(fn)) and False:
@@ -71,9 +71,12 @@ def _rename_locals(tree):
             # f-strings with `=` debugging or locals() would expose the name: skip functions using locals()/eval
             if any(isinstance(c, ast.Call) and isinstance(c.func, ast.Name) and c.func.id in ("locals", "eval", "exec", "vars") for c in ast.walk(fn)):
                 break
+            if cand.endswith("_rn"):
+                continue
             _Renamer(cand, cand + "_rn").visit(fn)
             count += 1
-            break
+            if not every:
+                break
     return count
 
 
